@@ -198,3 +198,90 @@ func FieldThenReturn(t *struct{ X int }) *struct{ X int } {
 	t.X = 2
 	return t
 }
+
+// ---- a loop body that is a single basic block and its own successor, with loop-carried nilness
+type E struct{}
+
+func (*E) Error() string { return "e" }
+
+// StopAfter returns a callback that answers true on its k-th call.
+func StopAfter(k int) func() bool {
+	calls := 0
+	return func() bool { calls++; return calls >= k }
+}
+
+func Drain(stop func() bool) error {
+	var cur error = &E{}
+	for {
+		prev := cur
+		cur = nil
+		if stop() {
+			return prev
+		}
+	}
+}
+
+func DrainPtr(stop func() bool) *int {
+	cur := new(int)
+	for {
+		prev := cur
+		cur = nil
+		if stop() {
+			return prev
+		}
+	}
+}
+
+func RotateLoop(stop func() bool) *int {
+	a, b, c := new(int), (*int)(nil), new(int)
+	for {
+		a, b, c = c, a, b
+		if stop() {
+			return a
+		}
+	}
+}
+
+func FillLoop(stop func() bool) []int {
+	var cur []int
+	for {
+		prev := cur
+		cur = []int{1}
+		if stop() {
+			return prev
+		}
+	}
+}
+
+// ---- generic functions with pointer-like type-parameter results and their non-generic callers
+func Pick[T ~*int | ~[]byte](x any, d T) T {
+	switch v := x.(type) {
+	case T:
+		return v
+	}
+	return d
+}
+
+func PickNew[T ~*int](x any) T {
+	switch v := x.(type) {
+	case T:
+		return v
+	}
+	return T(new(int))
+}
+
+func AssertT[T ~*int | ~[]byte](x any) T { return x.(T) }
+
+func ZeroT[T ~*int | ~[]byte]() T { return *new(T) }
+
+func Unwrap(x any) *int { return Pick[*int](x, new(int)) }
+
+func Boxed(x any) any { return Pick[*int](x, new(int)) }
+
+func UnwrapNew(x any) *int { return PickNew[*int](x) }
+
+func BoxedNew(x any) any { return PickNew[*int](x) }
+
+func UnwrapAssert(x any) *int { return AssertT[*int](x) }
+
+func ZeroPtr() *int { return ZeroT[*int]() }
